@@ -1272,8 +1272,15 @@ func (w *worker) writeCombiner(key TaskName) {
 	for part := range w.combiners[key] {
 		part := part
 		combiner := <-w.combiners[key][part]
-		g.Go(func() error {
-			err := w.commitLimiter.Acquire(ctx, 1)
+		g.Go(func() (err error) {
+			// Writing merges spilled runs with the user's combine function:
+			// its panics are the combiner's error, not the worker's end.
+			defer func() {
+				if e := recover(); e != nil {
+					err = errors.E(errors.Fatal, fmt.Errorf("panic while writing combiner: %v\n%s", e, string(debug.Stack())))
+				}
+			}()
+			err = w.commitLimiter.Acquire(ctx, 1)
 			if err != nil {
 				return err
 			}
